@@ -44,6 +44,10 @@ const POOL: &[&str] = &[
     "||x.com^$csp=d11,important",
     // a second unanchored csp rule in the bucket of `x.com/p$csp=d3` (same mask, another directive)
     "x.com/q$csp=d12",
+    // directives that contain the option syntax's own `=` and differ only behind it
+    "||x.com^$csp=r=1",
+    "||x.com^$csp=r=2",
+    "@@||x.com^$csp=r=2",
 ];
 
 fn requests() -> Vec<Req> {
